@@ -50,7 +50,7 @@ def run(ctx):
     def valid_values(u, tops, rng, src):
         valid = [(tid, name, h) for tid, name, h in src.go_random(nrand)]
         tv, e = src.tl1_values(ntl1)
-        cl = [f"conv 0 {tid} {name} {boxed} {h}" for tid, name, boxed, h in (tv or [])]
+        cl = [f"conv {int(bool(u.san))} {tid} {name} {boxed} {h}" for tid, name, boxed, h in (tv or [])]
         co = run_lines_resilient(u.gen.exe, [], cl, timeout=600)
         for l, o in zip(cl, co):
             f = o.split(" ")
